@@ -84,6 +84,60 @@ package unused
 //@   loop 1   invariant [unused_complete] forall i int :: {g.nodes[i]} 1 <= i && i < k + 1 && !seen(states[i]) && !bit(states[i], 1) ==> objIn(res.Unused, g.nodes[i].obj)
 //@   loop 1   invariant [count] len(res.Used) + len(res.Quiet) + len(res.Unused) == k
 
+// ---- construction of the graph: every edge points at a node ----
+// All changes of g.nodes go through newNode, addOwned and addUse (and g.objects through newNode);
+// each keeps the representation invariant
+//     the root node 0 exists, every use/own edge and every id in g.objects is a valid node id,
+// which is the precondition wfGraph of the colouring (color, colorAndQuieten, Results) above.
+//@ ghost wfOwn(nodes []Node) bool = forall a int, j int :: {nodes[a].owns[j]} 0 <= a && a < len(nodes) && 0 <= j && j < len(nodes[a].owns) ==> 0 <= nodes[a].owns[j] && nodes[a].owns[j] < len(nodes)
+//@ func (*graph).objectToObject
+//@   trusted
+//@ extern (go/types.Object).Pkg() *types.Package
+//@   pure
+//@ extern (*go/types.Var).Origin() *types.Var
+//@   pure
+//@ extern (*go/types.Func).Origin() *types.Func
+//@   pure
+//@ func (*graph).newNode
+//@   requires g != nil && g.objects != nil && len(g.nodes) >= 1 && wfGraph(g.nodes) && wfOwn(g.nodes)
+//@   requires forall o types.Object :: {o in g.objects} (o in g.objects) ==> 0 <= g.objects[o] && g.objects[o] < len(g.nodes)
+//@   may_panic
+//@   modifies g.nodes, g.objects
+//@   ensures  [id]    result == len(old(g.nodes)) && len(g.nodes) == len(old(g.nodes)) + 1 && g.objects != nil
+//@   ensures  [wf]    wfGraph(g.nodes) && wfOwn(g.nodes)
+//@   ensures  [objs]  forall o types.Object :: {o in g.objects} (o in g.objects) ==> 0 <= g.objects[o] && g.objects[o] < len(g.nodes)
+//@ func (*graph).node
+//@   requires g != nil && g.objects != nil && len(g.nodes) >= 1 && wfGraph(g.nodes) && wfOwn(g.nodes)
+//@   requires forall o types.Object :: {o in g.objects} (o in g.objects) ==> 0 <= g.objects[o] && g.objects[o] < len(g.nodes)
+//@   may_panic
+//@   modifies g.nodes, g.objects
+//@   ensures  [id]    0 <= result && result < len(g.nodes) && len(g.nodes) >= len(old(g.nodes)) && g.objects != nil
+//@   ensures  [wf]    wfGraph(g.nodes) && wfOwn(g.nodes)
+//@   ensures  [objs]  forall o types.Object :: {o in g.objects} (o in g.objects) ==> 0 <= g.objects[o] && g.objects[o] < len(g.nodes)
+//@ func (*graph).addUse
+//@   requires g != nil && g.edges != nil && 0 <= by && by < len(g.nodes) && 0 <= used && used < len(g.nodes) && wfGraph(g.nodes) && wfOwn(g.nodes)
+//@   modifies g.nodes, g.edges
+//@   ensures  [wf]    len(g.nodes) == len(old(g.nodes)) && wfGraph(g.nodes) && wfOwn(g.nodes)
+//@ func (*graph).addOwned
+//@   requires g != nil && g.edges != nil && 0 <= owner && owner < len(g.nodes) && 0 <= owned && owned < len(g.nodes) && wfGraph(g.nodes) && wfOwn(g.nodes)
+//@   modifies g.nodes, g.edges
+//@   ensures  [wf]    len(g.nodes) == len(old(g.nodes)) && wfGraph(g.nodes) && wfOwn(g.nodes)
+//@ func (*graph).use
+//@   requires g != nil && g.objects != nil && g.edges != nil && used != nil && len(g.nodes) >= 1 && wfGraph(g.nodes) && wfOwn(g.nodes)
+//@   requires forall o types.Object :: {o in g.objects} (o in g.objects) ==> 0 <= g.objects[o] && g.objects[o] < len(g.nodes)
+//@   may_panic
+//@   modifies g.nodes, g.objects, g.edges
+//@   ensures  [wf]    len(g.nodes) >= 1 && wfGraph(g.nodes) && wfOwn(g.nodes)
+//@   ensures  [objs]  forall o types.Object :: {o in g.objects} (o in g.objects) ==> 0 <= g.objects[o] && g.objects[o] < len(g.nodes)
+
+//@ func (*graph).see
+//@   requires g != nil && g.objects != nil && g.edges != nil && len(g.nodes) >= 1 && wfGraph(g.nodes) && wfOwn(g.nodes)
+//@   requires forall o types.Object :: {o in g.objects} (o in g.objects) ==> 0 <= g.objects[o] && g.objects[o] < len(g.nodes)
+//@   may_panic
+//@   modifies g.nodes, g.objects, g.edges
+//@   ensures  [wf]    len(g.nodes) >= 1 && wfGraph(g.nodes) && wfOwn(g.nodes)
+//@   ensures  [objs]  forall o types.Object :: {o in g.objects} (o in g.objects) ==> 0 <= g.objects[o] && g.objects[o] < len(g.nodes)
+
 //@ prop C03
 
 // (*graph).stmt strips every enclosing label before the type switch; its default branch
